@@ -10,7 +10,9 @@ use serde::{Deserialize, Serialize};
 use std::collections::HashMap;
 
 /// (data dir, key): pairwise either the directory differs or the keys sanitise differently
-const SLOTS: [(&str, Option<&str>); 5] = [("d0", Some("alpha")), ("d0", Some("beta")), ("d1", Some("alpha")), ("d1", None), ("d0", Some("g.1"))];
+/// ("d1", None) is the un-keyed instance living in the parent directory of d1's keyed ones; the
+/// key "42" gives it a sibling directory that is named like a WAL file
+const SLOTS: [(&str, Option<&str>); 6] = [("d0", Some("alpha")), ("d0", Some("beta")), ("d1", Some("alpha")), ("d1", None), ("d0", Some("g.1")), ("d1", Some("42"))];
 
 #[derive(Clone, Debug, Serialize, Deserialize, PartialEq, Eq, Hash)]
 pub enum MOp {
@@ -73,7 +75,20 @@ fn insts_strategy(n: std::ops::RangeInclusive<usize>) -> BoxedStrategy<Vec<InstC
 
 pub fn light_strategy(p: SizeProfile, nops: std::ops::Range<usize>) -> BoxedStrategy<MultiCase> {
     (any::<bool>(), topics_strategy(2), insts_strategy(2..=3), proptest::collection::vec((any::<u8>(), mop_strategy(p)), nops), any::<bool>(), drain_strategy())
-        .prop_map(|(fd, topics, insts, ops, restart, drain)| MultiCase { fd, topics, insts, ops, restart, wait_ms: 0, drain })
+        .prop_map(|(fd, topics, mut insts, ops, restart, drain)| {
+            // a quarter of the cases: the keyed instance with the digit-only key is opened first,
+            // the un-keyed instance of the same data directory second
+            if ops.len() % 4 == 0 && insts.len() >= 2 {
+                insts[0].slot = 5;
+                insts[1].slot = 3;
+                for i in insts.iter_mut().skip(2) {
+                    if i.slot == 5 || i.slot == 3 {
+                        i.slot = 0;
+                    }
+                }
+            }
+            MultiCase { fd, topics, insts, ops, restart, wait_ms: 0, drain }
+        })
         .boxed()
 }
 
